@@ -44,7 +44,8 @@ void generate(Rng& r, Workload& w, int tier) {
         }
     } else {
         int nt = int(r.range(1, tier ? 6 : 4));
-        w.cfg = {kind, r.range(1, tier ? 8 : 5)};
+        int64_t G = r.range(1, tier ? 8 : 5);
+        w.cfg = {kind, G, r.chance(1, 2) ? G : int64_t(r.below(uint64_t(G + 1)))};
         for (int i = 0; i < nt; ++i) w.ops.push_back({int64_t(r.below(64))});
     }
 }
@@ -211,6 +212,11 @@ void run_barrier(const Workload& w, Result& res, const char* name) {
     for (int t = 0; t < nt; ++t) flags.push_back(size_t(t) < w.ops.size() && !w.ops[size_t(t)].empty() ? w.ops[size_t(t)][0] : 0);
     auto bar = std::make_unique<Barrier>(size_t(nt));
     Barrier* bp = bar.get();
+    // the same team may move on to a second barrier object after S generations (S == G: one barrier only)
+    const int S = int(sim::modn(sim::cfg_at(w, 2, G), G + 1));
+    auto bar2 = std::make_unique<Barrier>(size_t(nt));
+    Barrier* bp2 = bar2.get();
+    if (S > 0 && S < G) res.probe("barrier_team_moves_to_second_barrier");
     // plain, unsynchronised cells: written before a crossing, read by all after it
     std::vector<std::vector<int> > slots(size_t(G), std::vector<int>(size_t(nt), 0));
     std::vector<int> action_count(size_t(G), 0);
@@ -227,7 +233,8 @@ void run_barrier(const Workload& w, Result& res, const char* name) {
                 for (int u = 0; u < nt; ++u)
                     if (slots[size_t(g)][size_t(u)] != 100 * u + g + 1) sim::rt_cell_add(CELL_ERR, 1);
             };
-            if ((flags[size_t(t)] >> g) & 1) bp->wait_yield(action); else bp->wait(action);
+            Barrier* b = g < S ? bp : bp2;
+            if ((flags[size_t(t)] >> g) & 1) b->wait_yield(action); else b->wait(action);
             sim::event(EV_LEAVE, g, t);
             for (int u = 0; u < nt; ++u)
                 if (slots[size_t(g)][size_t(u)] != 100 * u + g + 1) sim::rt_cell_add(CELL_ERR, 1);
